@@ -56,7 +56,7 @@ def run(ctx, proof):
     gaps = list(GAP_FUNCTIONS.keys())
     # ---------------- (a) recording ----------------
     model_lines, model_meta = [], []
-    for _ in range(6 if ctx.quick else 40):
+    for rec_i in range(6 if ctx.quick else 40):
         n = rng.choice([3, 4])
         comp = rng.choice(["superadditive", "superadditive_cached"])
         gap = rng.choice(gaps)
@@ -64,10 +64,11 @@ def run(ctx, proof):
         reps = rng.randint(1, 4)
         limit = rng.randint(1, 2 ** n - n - 2)
         hidden_games = [games.sa_closure_game(rng, n, rng.choice(["int", "dyadic"]), neg_singletons=False) for _ in range(3)]
-        if rng.random() < 0.35:
+        if rec_i % 3 == 1:
             # large values with a small cooperation surplus: episodes must still be played to the end
             off = 10 ** rng.randint(5, 7)
             hidden_games = [[off * games.popcount(i) + g[i] for i in range(2 ** n)] for g in hidden_games]
+            limit = max(limit, 2)
         log = []
 
         def env_gen():
